@@ -15,6 +15,7 @@ import (
 
 	"github.com/buildbarn/bb-remote-execution/pkg/builder"
 	"github.com/buildbarn/bb-remote-execution/pkg/cas"
+	"github.com/buildbarn/bb-remote-execution/pkg/filesystem/access"
 	"github.com/buildbarn/bb-remote-execution/pkg/filesystem/pool"
 	"github.com/buildbarn/bb-remote-execution/pkg/filesystem/virtual"
 	"github.com/buildbarn/bb-storage/pkg/digest"
@@ -42,6 +43,7 @@ type config struct {
 	cacheCount    int  // maximum number of Directory objects in the CachingDirectoryFetcher
 	warm          bool // second tree is fully explored first: every Directory comes from the cache
 	explicitMerge bool // MergeDirectoryContents is a letter (so that the fault can precede it)
+	monitor       bool // MergeDirectoryContents gets an access monitor (file system access profiling)
 	maxMods       int  // maximum number of successful local modifications per history
 	depth         map[string]int
 }
@@ -294,7 +296,11 @@ func (w *world) merge(i int) error {
 	if i == 1 {
 		t = w.tree2()
 	}
-	err := t.bd.MergeDirectoryContents(ctx, w.elog, w.c.dirDigest[0], nil)
+	var monitor access.UnreadDirectoryMonitor
+	if w.cfg.monitor {
+		monitor = newFakeMonitor()
+	}
+	err := t.bd.MergeDirectoryContents(ctx, w.elog, w.c.dirDigest[0], monitor)
 	if err == nil {
 		t.merged = true
 		if i == 0 {
